@@ -491,6 +491,17 @@ theorem undelegate_moves_stake {s s' : SState} {snd id : Nat} (hc : superfluidUn
         obtain ⟨b1, b2', _, b4, b5, _⟩ := burnS_stakeQ_own (s := { s with b := b2 }) hT hS hd hd0 hdS hb
         exact ⟨b1, b2', (fracQ_bounds b4 b5).2⟩
 
+/-- **the induction over the calls** (`runEv`: a sequence of successful `mintOsmoTokensAndDelegate` /
+`forceUndelegateAndBurnOsmoTokens` calls from one state): on a validator that stays healthy — at most `ρ = p/q` tokens per
+raw share — account `k`'s exact stake moves by the nominal amounts (`+` minted for it, `−` asked to be burnt from it) up to
+`ρ + 1` tokens up and `ρ + ½·10⁻¹⁸` down per CALL on its validator: the drift is at most (#calls since the refresh) units
+(plus `ρ` each). -/
+theorem stake_tracks_calls {k : AccKey} {p q : Int} (hq : 0 < q) {s s' : SState} (evs : List StkEv)
+    (hc : runEv s evs = .ok s') (hI : ShareInvV s.k k.2) (hH : (evStates s evs).all (healthyRB p q k.2) = true) :
+    -(callsOn k.2 evs : ℚ) * ((p : ℚ) / q + uQ / 2) ≤ stakeQ s'.k k - stakeQ s.k k - (nomAlong k s evs : ℚ) ∧
+    stakeQ s'.k k - stakeQ s.k k - (nomAlong k s evs : ℚ) ≤ (callsOn k.2 evs : ℚ) * ((p : ℚ) / q + 1) :=
+  (runEv_stake hq evs s s' hc hI (fun st hst => healthyR_of_B (List.all_eq_true.mp hH st hst))).2
+
 /-- **every slash-free history is a path of staking calls**: between `s₀` and `runS s₀ ops` the staking state changed
 only through a sequence `evs` of `mintOsmoTokensAndDelegate` / `forceUndelegateAndBurnOsmoTokens` calls (made in the
 states `sts`), at most `stakeCallsAlong` of them: one per delegate / undelegate / add-to-lock, two per undelegate-and-
@@ -591,5 +602,53 @@ example : StkInv (runS wD [.base (.delegate 0 1 0), .slash 0 1 (P18 / 2) [], .ba
           split <;> decide
         · intro i _ _; exact connAmt_of_noconn rfl)
     wD_stkInv _
+
+
+/-- `stake_tracks_calls` on `wD`: mint 3 for (0,0), mint 2 for the validator's other account (1,0), ask to burn 4 from
+(0,0): three calls on the validator, nominal +3 −4 for (0,0). -/
+example : ∃ s', runEv wD [.mint 3 (0, 0), .mint 2 (1, 0), .burn 4 (0, 0)] = .ok s' ∧
+    nomAlong (0, 0) wD [.mint 3 (0, 0), .mint 2 (1, 0), .burn 4 (0, 0)] = -1 ∧
+    callsOn 0 [.mint 3 (0, 0), .mint 2 (1, 0), .burn 4 (0, 0)] = 3 ∧
+    -(3 : ℚ) * ((2 : Int) / (P18 : Int) + uQ / 2) ≤ stakeQ s'.k (0, 0) - stakeQ wD.k (0, 0) - ((-1 : Int) : ℚ) ∧
+    stakeQ s'.k (0, 0) - stakeQ wD.k (0, 0) - ((-1 : Int) : ℚ) ≤ (3 : ℚ) * ((2 : Int) / (P18 : Int) + 1) := by
+  obtain ⟨s', hs'⟩ := okS_ok (show okS (runEv wD [.mint 3 (0, 0), .mint 2 (1, 0), .burn 4 (0, 0)]) = true by decide +kernel)
+  have h1 : nomAlong (0, 0) wD [.mint 3 (0, 0), .mint 2 (1, 0), .burn 4 (0, 0)] = -1 := by decide +kernel
+  have h2 : callsOn 0 [.mint 3 (0, 0), .mint 2 (1, 0), .burn 4 (0, 0)] = 3 := by decide
+  have := stake_tracks_calls (k := (0, 0)) (p := 2) (q := P18) (by decide) _ hs' (wD_stkInv.1 0) (by decide +kernel)
+  rw [h1, h2] at this
+  exact ⟨s', hs', h1, h2, by simpa using this.1, by simpa using this.2⟩
+
+/-- the hypotheses of `refresh_sets_expected_staking` / `drift_between_epochs_staking_partial` are met on `wS0`. -/
+example : Init' (absL wS0) := by
+  refine ⟨⟨by decide, by decide, by decide, ?_, fun _ => rfl, fun _ => rfl, fun _ => rfl, fun _ => rfl⟩, ?_⟩
+  · intro d
+    show 0 ≤ (if d = 0 then 5 * P18 / 2 else 0)
+    split <;> decide
+  · intro d hd
+    show d ∈ [0]
+    have : (if d = 0 then 5 * P18 / 2 else 0) ≠ 0 := hd
+    by_cases e : d = 0
+    · subst e; simp
+    · rw [if_neg e] at this; exact absurd rfl this
+
+example : ∃ s', epochS (runS wS0 ((rOps.take 2).map OpS.base)) [(0, 250, 100 * P18, false)] = .ok s' ∧
+    ∀ k g, (k, g) ∈ s'.b.accs → k.2 ∈ s'.b.validators →
+      osmoTokens s'.b k.1 (sumConn s'.b k s'.b.lastLockId) = .ok (shOf s'.k k / P18) ∧ ROs s' := by
+  have hI0 : Inv wS0.b := (init_inv w0_init).ledger_frame _ _ _
+  obtain ⟨hab, hR⟩ := rate_one_refinement wS0_ROs hI0 (rOps.take 2) ⟨wS0_fits.1, wS0_fits.2.1, trivial⟩
+  have hI : Inv (runS wS0 ((rOps.take 2).map OpS.base)).b := reach_inv_slashed hI0 _
+  obtain ⟨s', hs'⟩ := okS_ok (show okS (epochS (runS wS0 ((rOps.take 2).map OpS.base)) [(0, 250, 100 * P18, false)]) = true by
+    decide +kernel)
+  refine ⟨s', hs', refresh_sets_expected_staking hR hI ?_ hs' ?_⟩
+  · rw [hab]; exact wS0_fits.2.2.1
+  · obtain ⟨b1, hb1⟩ := okS_ok (show okS ((updateMults (runS wS0 ((rOps.take 2).map OpS.base)).b [(0, 250, 100 * P18, false)]).bind
+        fun r => if r.2 then .ok r.1 else .error .other) = true by decide +kernel)
+    cases hu : updateMults (runS wS0 ((rOps.take 2).map OpS.base)).b [(0, 250, 100 * P18, false)] with
+    | error e => rw [hu] at hb1; cases hb1
+    | ok r =>
+      obtain ⟨b, full⟩ := r
+      cases full with
+      | true => exact ⟨b, rfl⟩
+      | false => rw [hu] at hb1; cases hb1
 
 end OsmoVerif.Props.C11Refresh
